@@ -81,7 +81,13 @@ patch("runtime/chan.go", [
     ("func chanrecv(c *hchan, ep unsafe.Pointer, block bool) (selected, received bool) {\n",
      "func chanrecv(c *hchan, ep unsafe.Pointer, block bool) (selected, received bool) {\n\tsimYield()\n", 1)])
 # 6. fake-timer tie break
-patch("runtime/time.go", [("t.rand = cheaprand()", "t.rand = simTimerRand()", 1)])
+patch("runtime/time.go", [("t.rand = cheaprand()", "t.rand = simTimerRand(t.rand)", 1),
+                          ("\t\tt.isFake = true\n", "\t\tt.isFake = true\n\t\tt.rand = simTimerRand(0)\n", 2),
+                          ("\tt.trace(\"unlockAndRun\")\n", "\tt.trace(\"unlockAndRun\")\n\tif simsched.trace && bubble != nil {\n\t\tprint(\"TRUN when=\", t.when, \" rand=\", t.rand, \" period=\", t.period, \"\\n\")\n\t}\n", 1)])
+# 6b. sync.Pool in race builds drops one Put in four at random (runtime.randn, unseeded): the pools
+#     of fmt/slog then take other paths in a -race build than in a plain one and from process to
+#     process.  Never drop.
+patch("sync/pool.go", [("if runtime_randn(4) == 0 {", "if false && runtime_randn(4) == 0 {", 1)])
 # 7. math/rand globals: the unseeded top-level generators of math/rand and math/rand/v2 read
 #    runtime.rand; route them (and only them) to the sim stream for bubble goroutines.  runtime.rand
 #    itself stays untouched: map seeds and sync.Pool's race-mode random drop also use it, and their
